@@ -1,21 +1,20 @@
-\* U1a: every request class against a small world (1 upload): the gate, sizes, kinds, URL shapes.
+\* U1a: every method x key x credentials x placement x size x sign-up flag against the worlds reachable with one upload.
 CONSTANTS
   MaxUp = 1
   MaxMsg = 0
   Topics = {}
   Users = {"u1", "u2"}
   MaxGc = 0
-  MaxClock = 0
   Grace = 1
   Methods = {"GET", "HEAD", "POST", "PUT", "OPTIONS", "DELETE", "PATCH", "TRACE"}
   Keys = {"valid", "root", "missing", "wrongsalt", "malformed"}
   Creds = {"token", "basic", "sid", "missing", "garbage", "shorttoken", "expired", "badsig", "wrongpw", "unknownscheme", "deadsid", "anonsid"}
   Places = {"header", "query", "form", "cookie"}
   Sizes = {"small", "limit", "over"}
-  Kinds = {"html", "xml", "text", "js", "pdf", "png", "bin", "bin_html", "bin_svg", "bin_msg", "nofile", "empty"}
+  Kinds = {"html"}
   Faults = {"none"}
-  Shapes = {"canon", "bare", "dot_in", "dot_out", "absolute", "encslash", "odd_tail", "odd_head"}
-  Limits = {0}
+  Shapes = {"canon"}
+  Limits = {100}
   NewaccVals = {TRUE, FALSE}
   AsattVals = {TRUE, FALSE}
   AllowSlow = TRUE
@@ -23,6 +22,6 @@ CONSTANTS
   DEV_ServeUnfinished = FALSE
   DEV_FinishFailLeavesBytes = FALSE
 SPECIFICATION Spec
-INVARIANTS TypeOK DownloadExact DownloadServes UrlNamesOnlyCompletedUpload DiskMatchesRecords LinksWellFormed OwnerAuthenticated
-PROPERTIES GateBeforeEffect LinkedNeverCollected NothingElseRemoved
+VIEW View
+INVARIANTS StateClauses ReqClauses LifeClauses
 CHECK_DEADLOCK FALSE
